@@ -52,6 +52,13 @@ pub fn scenario(idx: usize, seed: u64) -> ScenarioResult {
         ca.config = cfg.clone();
         let mut cb = NodeCfg::new(kb);
         cb.config = cfg;
+        // a connection limit that the pair itself fills: the inbound half of a mutual dial is admitted
+        // on arrival (nothing established yet) and must then go through the tie-break like any other
+        let lim_a = if w.rng.gen_range(0..10) < 2 { Some(w.rng.gen_range(1..=2usize)) } else { None };
+        let lim_b = if w.rng.gen_range(0..10) < 2 { Some(w.rng.gen_range(1..=2usize)) } else { None };
+        ca.config.max_concurrent_connections = lim_a;
+        cb.config.max_concurrent_connections = lim_b;
+        let limited = lim_a.is_some() || lim_b.is_some();
         ca.config.connectivity_check_interval_ms = Some(w.rng.gen_range(50..300));
         cb.config.connectivity_check_interval_ms = Some(w.rng.gen_range(50..300));
         let a = w.start_node(ca).unwrap();
@@ -117,6 +124,7 @@ pub fn scenario(idx: usize, seed: u64) -> ScenarioResult {
             "a": pid_hex(&a.peer_id), "b": pid_hex(&b.peer_id),
             "a_greater": a.peer_id > b.peer_id,
             "offset_us": off, "loss": loss, "dup": dup,
+            "connection_limits": [lim_a, lim_b],
             "a_dials_by": if bg_a { "background (High affinity)" } else { "connect()" },
             "b_dials_by": if bg_b { "background (High affinity)" } else { "connect()" },
             "lat_us": [lat_lo.as_micros() as u64, lat_hi_ab.as_micros() as u64, lat_hi_ba.as_micros() as u64],
@@ -136,6 +144,10 @@ pub fn scenario(idx: usize, seed: u64) -> ScenarioResult {
             };
             return finish(if lossy {
                 ScenarioResult::skipped(why)
+            } else if limited {
+                // the later inbound half found the limit reached by the earlier half: a legitimate
+                // rejection (C10), and not a mutual dial in which both handshakes finish
+                ScenarioResult::skipped("one dial was rejected by the configured connection limit")
             } else {
                 ScenarioResult::inconclusive(why).with_sample(witness_base)
             });
@@ -243,6 +255,7 @@ pub fn scenario(idx: usize, seed: u64) -> ScenarioResult {
             // scenarios in which both sides dialed explicitly)
             .count(&if bg_a || bg_b { "survivor_not_compared_background_side".to_owned() } else { format!("survivor_{survivor}") }, 1)
             .count("mutual_dials_with_a_background_side", (bg_a || bg_b) as u64)
+            .count("mutual_dials_with_a_connection_limit", limited as u64)
             .count("mutual_dials_completed", 1);
         finish(res)
     })
